@@ -394,11 +394,12 @@ impl<N, E, H: BuildHasher + Default> DAG<N, E, H> {
       return Err(Error::CycleDetected);
     }
 
-    // Insert forward edge
-    let mut no_prev_edge = self.node_info[src.0].children.insert(*dst);
+    // Insert forward edge. Note: `replace` instead of `insert`, because `insert` moves an already present element to
+    // the back, which would change the (insertion) iteration order when an existing edge is added again.
+    let mut no_prev_edge = self.node_info[src.0].children.replace(*dst).is_none();
     let upper_bound = self.node_info[src.0].topo_order;
     // Insert backward edge
-    no_prev_edge = no_prev_edge && self.node_info[dst.0].parents.insert(*src);
+    no_prev_edge = no_prev_edge && self.node_info[dst.0].parents.replace(*src).is_none();
     let lower_bound = self.node_info[dst.0].topo_order;
     if !no_prev_edge { // If edge already exists short circuit
       return Ok(false);
